@@ -58,6 +58,19 @@ def jobs(families, profiles, quick, thorough, variants=None, mode="lockstep"):
     return [job(f, p, quick, thorough, variants=variants, mode=mode) for f in families for p in profiles]
 
 
+def rand_jobs(specprofile, profiles, quick, thorough, nquick=1, nthorough=16, mode="lockstep"):
+    """jobs on seeded random specs rand_<specprofile>_<k> (gen/randspec.py): the first nquick of them also run in the quick tier"""
+    import randspec
+    out = []
+    for k in range(nthorough):
+        name = "rand_%s_%d" % (specprofile, k)
+        vs = randspec.variants(randspec.rand_spec(specprofile, k))
+        for p in profiles:
+            out.append({"family": name, "variants": vs, "profile": p, "quick": quick if k < nquick else 0, "thorough": thorough,
+                        "san": "", "shards": 2, "mode": mode, "valgrind": False})
+    return out
+
+
 STRUCT = ["conflict_flat", "conflict_ortho", "order_rows", "nest2_mixed", "nest3"]
 COMMON_FAMS = ["ids_mixed_none", "ids_mixed_always", "ids_mixed_shallow", "conflict_flat", "conflict_ortho", "order_rows", "nest2_mixed", "nest3", "nest3_deep", "nest_inactive", "noevent", "exit_points",
                "history_none", "history_always", "history_shallow", "queue_flat", "queue_nested", "blocking", "flags",
@@ -65,7 +78,8 @@ COMMON_FAMS = ["ids_mixed_none", "ids_mixed_always", "ids_mixed_shallow", "confl
 
 PROPS = {
     "C01": {
-        "jobs": jobs(STRUCT, ["plain"], 1500, 60000, variants=ALLV) + jobs(["nest2_mixed", "nest3", "conflict_ortho"], ["posts"], 800, 30000, variants=ALLV),
+        "jobs": jobs(STRUCT, ["plain"], 1500, 60000, variants=ALLV) + jobs(["nest2_mixed", "nest3", "conflict_ortho"], ["posts"], 800, 30000, variants=ALLV)
+                + rand_jobs("struct", ["plain", "posts"], 600, 8000),
         "nontrivial": ["multi_candidate"],
         "rule": "seeded plans (start + 4..16 events, an independent guard vector per event; half of the jobs add re-entrant posts) on the "
                 "generated machines, every variant in lockstep with the reference model; a run is non-trivial when at least one dispatch "
@@ -73,16 +87,18 @@ PROPS = {
     },
     "C02": {
         "jobs": jobs(["order_rows", "nest2_mixed", "nest3", "fork_entry", "history_always", "ids_mixed_none", "ids_mixed_always"],
-                     ["plain", "lifecycle"], 800, 40000, variants=ALLV),
+                     ["plain", "lifecycle"], 800, 40000, variants=ALLV)
+                + rand_jobs("struct", ["lifecycle"], 600, 8000) + rand_jobs("hist", ["plain"], 0, 6000) + rand_jobs("pseudo", ["lifecycle"], 0, 6000),
         "nontrivial": ["transition"],
         "rule": "plans of events and stop/start cycles; lockstep compares every exit / action / entry record (order, event, state) and the "
                 "configuration after each op; non-trivial = at least one external transition was taken; distinct = full-trace hash",
     },
     "C03": {
         "jobs": jobs(["conflict_ortho", "nest2_mixed", "nest3", "nest3_deep", "nest_inactive", "fork_entry", "exit_points", "history_always", "flags",
-                      "completion_chain", "ids_mixed_none", "ids_mixed_shallow"], ["lifecycle"], 800, 40000, variants=ALLV)
+                      "completion_chain", "ids_mixed_none", "ids_mixed_shallow", "ids_implicit"], ["lifecycle"], 800, 40000, variants=ALLV)
                 + jobs(["queue_nested", "nest2_mixed"], ["queue"], 600, 30000, variants=ALLV)
-                + jobs(["nest2_mixed"], ["reentrant"], 300, 3000, variants=["B", "M"]),
+                + jobs(["nest2_mixed"], ["reentrant"], 300, 3000, variants=["B", "M"])
+                + rand_jobs("struct", ["lifecycle"], 600, 8000) + rand_jobs("pseudo", ["lifecycle"], 0, 6000) + rand_jobs("hist", ["observe"], 0, 6000),
         "nontrivial": ["stopstart"],
         "rule": "histories of start / process_event / enqueue / stop with full introspection (active ids per level, is_state_active, "
                 "get_state_by_id, visitors, flags) after every op + the model-free entry/exit ledger I2; non-trivial = the history "
@@ -91,7 +107,8 @@ PROPS = {
     "C04": {
         "jobs": jobs(["queue_flat", "queue_nested", "conflict_ortho", "completion_chain", "defer_basic", "nest2_mixed", "nest3"],
                      ["queue"], 1000, 50000, variants=ALLV)
-                + jobs(["nest2_mixed", "queue_nested"], ["reentrant"], 300, 3000, variants=["B", "M"]),
+                + jobs(["nest2_mixed", "queue_nested"], ["reentrant"], 300, 3000, variants=["B", "M"])
+                + rand_jobs("struct", ["queue"], 600, 8000) + rand_jobs("compl", ["queue"], 0, 6000),
         "nontrivial": ["post"],
         "rule": "plans with 0-3 re-entrant submissions per op from arbitrary callback positions (guard, exit, action, entry, no_transition, "
                 "initial entries during start()), to the fsm argument or to the root, through process_event / enqueue_event, mixed with "
@@ -106,38 +123,43 @@ PROPS = {
                 "non-trivial = a deferred occurrence was observed pending at a quiescent point; distinct = full-trace hash",
     },
     "C06": {
-        "jobs": jobs(["conflict_ortho", "nest2_mixed", "nest3", "nest3_deep", "noevent", "exit_points"], ["plain"], 1500, 60000, variants=ALLV),
+        "jobs": jobs(["conflict_ortho", "nest2_mixed", "nest3", "nest3_deep", "noevent", "exit_points"], ["plain"], 1500, 60000, variants=ALLV)
+                + rand_jobs("struct", ["plain"], 600, 8000) + rand_jobs("pseudo", ["plain"], 0, 6000),
         "nontrivial": ["no_transition"],
         "rule": "one external process_event at a time on a quiescent machine (no posts, no throws), independent guard vectors; lockstep "
                 "compares per-region order, return code and every no_transition call; non-trivial = at least one no_transition call "
                 "occurred in the run; distinct = full-trace hash",
     },
     "C07": {
-        "jobs": jobs(["nest2_mixed", "nest3", "nest3_deep", "nest_inactive", "ids_mixed_none"], ["plain", "posts"], 1000, 50000, variants=ALLV),
+        "jobs": jobs(["nest2_mixed", "nest3", "nest3_deep", "nest_inactive", "ids_mixed_none"], ["plain", "posts"], 1000, 50000, variants=ALLV)
+                + rand_jobs("struct", ["plain", "posts"], 600, 8000) + rand_jobs("hist", ["posts"], 0, 6000),
         "nontrivial": ["nested"],
         "rule": "plans on machines of depth 2-3; non-trivial = a dispatch invoked behaviours of >= 2 nesting levels; distinct = full-trace hash",
     },
     "C08": {
-        "jobs": jobs(["history_none", "history_always", "history_shallow", "ids_mixed_none", "ids_mixed_always", "ids_mixed_shallow"],
-                     ["plain", "lifecycle", "posts"], 800, 40000, variants=ALLV),
+        "jobs": jobs(["history_none", "history_always", "history_shallow", "ids_mixed_none", "ids_mixed_always", "ids_mixed_shallow", "hist_exit_pt"],
+                     ["plain", "lifecycle", "posts"], 800, 40000, variants=ALLV)
+                + rand_jobs("hist", ["plain", "lifecycle"], 600, 8000) + rand_jobs("pseudo", ["lifecycle"], 0, 6000),
         "nontrivial": ["reentry"],
         "rule": "enter / move / exit cycles of a 3-region sub-machine under the three history policies, entered normally, by direct entry "
                 "and by fork; history memory probed after every op; non-trivial = the sub-machine was re-entered at least once",
     },
     "C09": {
-        "jobs": jobs(["fork_entry", "exit_points"], ["plain", "posts", "lifecycle"], 1000, 50000, variants=ALLV),
+        "jobs": jobs(["fork_entry", "exit_points", "hist_exit_pt"], ["plain", "posts", "lifecycle"], 1000, 50000, variants=ALLV)
+                + rand_jobs("pseudo", ["plain", "posts"], 600, 8000),
         "nontrivial": ["nested"],
         "rule": "plans on machines with direct<>, fork, entry_pt<> and exit_pt<> rows incl. the exit points' event types sent from outside; "
                 "non-trivial = a dispatch crossed the sub-machine boundary",
     },
     "C10": {
-        "jobs": jobs(["completion_chain"], ["plain", "posts", "queue"], 1500, 80000, variants=ALLV),
+        "jobs": jobs(["completion_chain"], ["plain", "posts", "queue"], 1500, 80000, variants=ALLV) + jobs(["blocking_completion", "completion_regions"], ["plain"], 1000, 40000, variants=ALLV)
+                + rand_jobs("compl", ["plain", "posts", "queue"], 600, 8000),
         "nontrivial": ["completion"],
         "rule": "plans on a machine with completion chains (1-4, conflicts, guards, inside a sub-machine, from the initial state) with "
                 "queued and posted work pending; completion guards latched per entry; non-trivial = a completion transition fired",
     },
     "C11": {
-        "jobs": jobs(["blocking"], ["plain", "posts", "queue", "lifecycle"], 1000, 50000, variants=ALLV),
+        "jobs": jobs(["blocking", "blocking_completion"], ["plain", "posts", "queue", "lifecycle"], 1000, 50000, variants=ALLV),
         "nontrivial": ["swallowed"],
         "rule": "plans on a 3-region machine with a terminate state and two interrupt states (one / two end events); non-trivial = an "
                 "external event was swallowed (handled code, no behaviour invoked)",
@@ -148,7 +170,8 @@ PROPS = {
                        ["throws"], 600, 30000, variants=ALLV)
                 # "the outcome does not depend on uninitialised data": the same plans under valgrind (one plan per process)
                 + [job("completion_chain", "throws", 12, 300, variants=["M", "B"], valgrind=True),
-                   job("nest2_mixed", "throws", 8, 200, variants=["M", "B"], valgrind=True)],
+                   job("nest2_mixed", "throws", 8, 200, variants=["M", "B"], valgrind=True)]
+                + rand_jobs("struct", ["throws"], 0, 6000) + rand_jobs("compl", ["throws"], 0, 6000) + rand_jobs("pseudo", ["throws"], 0, 6000),
         "nontrivial": ["throw"],
         "rule": "fault injection: 1-2 exceptions per faulty op thrown from a guard / exit / action / entry position chosen among the "
                 "callbacks the op actually reaches (dry run on the model), plus posts, under all four switch policies; lockstep + "
@@ -158,7 +181,10 @@ PROPS = {
         "jobs": [job(f, "common", 1500, 60000, variants=ALLV, mode="diff:backend") for f in COMMON_FAMS]
                 + [job(f, "common_throws", 600, 30000, variants=ALLV, mode="diff:backend") for f in ["nest2_mixed", "order_rows", "queue_flat"]]
                 + [job(f, "plain", 1000, 40000, variants=ALLV, mode="diff:backend") for f in ["fork_entry", "defer_basic"]]
-                + [job("events_hier", "common", 1000, 40000, mode="diff:backend")],
+                + [job("events_hier", "common", 1000, 40000, mode="diff:backend")]
+                + [job(f, "common", 600, 20000, variants=ALLV, mode="diff:backend") for f in ["ids_implicit", "hist_exit_pt", "completion_regions"]]   # findings KF-3, KF-4, KF-5
+                + rand_jobs("struct", ["common"], 600, 8000, mode="diff:backend") + rand_jobs("hist", ["common"], 600, 8000, mode="diff:backend")
+                + rand_jobs("pseudo", ["common"], 0, 6000, mode="diff:backend") + rand_jobs("compl", ["common"], 0, 6000, mode="diff:backend"),
         "nontrivial": ["transition"],
         "rule": "the same plan (events, guard vectors, posts, enqueue/drain, stop/start, throws) executed on back+runtime, back+compile-time, "
                 "backmp11 flat_fold / function_pointer_array / favor_compile_time; normalised traces (false completion-guard re-tries dropped, "
@@ -183,7 +209,8 @@ PROPS = {
     },
     "C15": {
         "jobs": jobs(["nest2_mixed", "exit_points", "history_always", "history_shallow", "ids_mixed_shallow", "ids_mixed_always", "serial_nested",
-                      "defer_basic", "queue_flat", "queue_nested"], ["fork"], 800, 40000, variants=ALLV),
+                      "defer_basic", "queue_flat", "queue_nested"], ["fork"], 800, 40000, variants=ALLV)
+                + rand_jobs("hist", ["fork"], 600, 8000) + rand_jobs("pseudo", ["fork"], 0, 6000),
         "nontrivial": ["fork"],
         "rule": "plans with copy-construct (from const&), copy-assign, move-construct / move-assign (backmp11), destroy, with queued and "
                 "deferred events pending, then different continuations on up to 3 replicas; every behaviour record carries the replica "
